@@ -39,8 +39,7 @@ def labels_of(ev):
     if e == 'Panic':
         return ['C12', 'C09', 'C02', 'C06', 'C01']
     if e == 'Exit':
-        base = {'hash': ['C01'], 'keepalive': ['C20'], 'badrequest': ['C09']}.get(ev.get('why'), [])
-        return base + TRIG_LABEL.get(ev['trig']['t'], []) + ['C06', 'C08']
+        return TRIG_LABEL.get(ev['trig']['t'], []) + ['C06', 'C08']
     return TRIG_LABEL.get(ev['trig']['t'], ['C12'])
 
 
@@ -461,8 +460,8 @@ def swarm_check(pid, tier, plan, kinds, design_over=None, extra_oracles=(), vacu
                     stats['rotations_executed'] += 1
             elif e['src'] == 'h' and e['ev'] == 'Exit':
                 stats['exits'] += 1
-                stats['keepalive_timeouts'] += 'Keep alive' in e['reason']
-                stats['bad_piece_exits'] += 'hash mismatch' in e['reason']
+                stats['keepalive_timeouts'] += e['trig'].get('k') == 'TickKA'
+                stats['bad_piece_exits'] += e['trig'].get('k') == 'Piece'
             elif e['src'] == 'net' and e['ev'] == 'Out':
                 k = e['f']['k']
                 stats['pieces_served'] += k == 'Piece'
